@@ -42,12 +42,19 @@ func do(c call, dir string) string {
 		}
 		return fmt.Sprint(fs.Len(), fs.Frames(), fs.Normalize().FrameRange(), fs.InvertedFrameRange(c.n%5))
 	case 1:
-		q, err := fileseq.NewFileSequencePad(c.a, fileseq.PadStyle(c.n%2))
+		st := fileseq.PadStyle(c.n % 2)
+		if c.n%7 == 0 {
+			st = fileseq.PadStyle(100 + c.n) // a style the library does not know: documented to fall back to the default
+		}
+		q, err := fileseq.NewFileSequencePad(c.a, st)
 		if err != nil {
 			return "ERR"
 		}
 		f, _ := q.Format("{{dir}}{{base}}{{frange}}{{pad}}{{ext}} {{len}} {{zfill}}")
 		c2 := q.Copy()
+		if c.n%5 == 0 {
+			c2.SetPaddingStyle(fileseq.PadStyle(50 + c.n))
+		}
 		c2.SetPaddingStyle(fileseq.PadStyle((c.n + 1) % 2))
 		return fmt.Sprint(q.String(), q.ZFill(), q.Index(0), f, len(q.Split()), c2.String())
 	case 2:
